@@ -4,6 +4,7 @@
 package conc
 
 import (
+	"bytes"
 	"encoding/json"
 	"fmt"
 	"os"
@@ -75,6 +76,48 @@ func runChild(d Driver) childOut {
 			}
 		}
 	}
+	// executions that share this process turned out not to be independent of each other (a replay took
+	// another course): the code under test keeps state in package-level variables.  Nothing found this way
+	// is believed; the driver is explored again with a process per execution, within a preemption bound.
+	if !st.Exhaustive && len(st.Violations) == 0 && (strings.Contains(st.Why, "DIVERGENCE") || strings.Contains(st.Why, "did not replay identically")) {
+		bound, tier := 1, "quick"
+		if len(os.Args) >= 4 {
+			tier = os.Args[3]
+		}
+		if tier != "quick" {
+			bound = 2
+		}
+		budget := d.Cfg.Budget
+		if budget <= 0 || budget > 3*time.Minute {
+			budget = 3 * time.Minute
+		}
+		first := st.Why
+		st2 := vrt.ExploreIsolated(func(prefix []int) vrt.One {
+			cmd := exec.Command(os.Args[0], "--exec1", d.Name, tier)
+			in, _ := json.Marshal(prefix)
+			cmd.Stdin = bytes.NewReader(in)
+			cmd.Stderr = nil
+			b, err := cmd.Output()
+			var o vrt.One
+			if err != nil || json.Unmarshal(b, &o) != nil {
+				o.Err = fmt.Sprintf("the process of one execution failed: %v", err)
+			}
+			return o
+		}, bound, 4, budget)
+		st.Executions += st2.Executions
+		st.Transitions += st2.Transitions
+		for k, v := range st2.Outcomes {
+			st.Outcomes[k] += v
+		}
+		st.Violations = append(st.Violations, st2.Violations...)
+		out.Completed = "nothing"
+		if st2.Exhaustive {
+			out.Completed = st2.BoundUsed
+			st.Why = "executions sharing a process were not independent (" + first + "); explored with " + st2.BoundUsed
+		} else {
+			st.Why = "executions sharing a process were not independent (" + first + "); then: " + st2.Why
+		}
+	}
 	out.Violations = st.Violations
 	// symmetry reduction is cross-checked where that is affordable: the same driver explored without it
 	// must show exactly the same set of observable outcomes
@@ -119,6 +162,18 @@ var ExtraReplay func(c *enum.Ctx, in json.RawMessage) bool
 // Main is the entry point of an E1 harness binary.
 func Main(id, level string, drivers func(quick bool) []Driver, describe func(c *enum.Ctx)) {
 	runtime.GOMAXPROCS(4)
+	if len(os.Args) >= 4 && os.Args[1] == "--exec1" {
+		// one execution, this process to itself: the prefix of choices on standard input
+		var prefix []int
+		json.NewDecoder(os.Stdin).Decode(&prefix)
+		for _, d := range drivers(os.Args[3] == "quick") {
+			if d.Name == os.Args[2] {
+				json.NewEncoder(os.Stdout).Encode(vrt.NewExplorer(d.Cfg).One(d.Mk, prefix))
+				os.Exit(0)
+			}
+		}
+		os.Exit(2)
+	}
 	if len(os.Args) >= 4 && os.Args[1] == "--child" {
 		for _, d := range drivers(os.Args[3] == "quick") {
 			if d.Name == os.Args[2] {
